@@ -106,11 +106,15 @@ def order(m, props):
 
 
 def stage2(nw=4, only=None):
+    first = {}
     ms = {m["id"]: m for m in json.load(open(W + "/mutants.json"))}
     s1 = json.load(open(W + "/stage1.json"))
     cov = json.load(open(V + "/tools/covermap.json"))
     res = load(W + "/stage2.json", {})
-    todo = [ms[i] for i in sorted(s1) if s1[i] == "survived" and i not in res and (only is None or i in only)]
+    todo = [ms[i] for i in sorted(s1) if s1[i] == "survived" and ((i not in res and only is None) or (only is not None and i in only))]
+    for m in todo:      # a re-run keeps the first verdict for the record
+        if m["id"] in res and "first_verdict" not in res[m["id"]]:
+            first[m["id"]] = res[m["id"]]["verdict"]
     print(len(todo), "to run", flush=True)
 
     def worker(k):
@@ -148,6 +152,8 @@ def stage2(nw=4, only=None):
             if verdict == "survived" and len(props) > len(ran):
                 verdict = "survived (%d of %d reaching checks run)" % (len(ran), len(props))
             res[m["id"]] = {"verdict": verdict, "props": ran}
+            if m["id"] in first:
+                res[m["id"]]["first_verdict"] = first[m["id"]]
             json.dump(dict(res), open("%s/stage2.json.tmp%d" % (W, k), "w"))
             os.replace("%s/stage2.json.tmp%d" % (W, k), W + "/stage2.json")
             print(m["id"], m["file"], m["line"], m["func"], m["kind"], repr(m["old"][:30]), "->", repr(m["new"][:30]), "|", verdict[:80], ran, flush=True)
